@@ -46,6 +46,9 @@ pub fn world_knobs(rng: &mut Rng, plan: &mut Plan, faulty: bool) {
     w.latency_us = *rng.pick(&[5u64, 50, 200, 2000]);
     w.latency_jitter_us = *rng.pick(&[0u64, 20, 500]);
     w.cores = 1 + rng.below(16) as usize;
+    // thread start-up latency: with 0 a new thread runs at once (starts in spawn order); real
+    // threads usually start after the spawner has moved on
+    w.spawn_latency_us = *rng.pick(&[0u64, 20, 150, 150, 1_000]);
     if faulty {
         let f = &mut w.faults;
         // a random subset of fault kinds per run
